@@ -282,6 +282,15 @@ func c14TxPaths() []c14Path {
 				}
 				return tx, nil
 			}},
+		{Name: "binary", // the raw form served by quai_getRawTransaction* and accepted by UnmarshalBinary
+			Enc: func(e *c14Env, o any) ([]byte, error) { return o.(*types.Transaction).MarshalBinary() },
+			Dec: func(e *c14Env, b []byte) (any, error) {
+				tx := new(types.Transaction)
+				if err := tx.UnmarshalBinary(b); err != nil {
+					return nil, err
+				}
+				return tx, nil
+			}},
 		{Name: "json",
 			Enc: func(e *c14Env, o any) ([]byte, error) { return o.(*types.Transaction).MarshalJSON() },
 			Dec: func(e *c14Env, b []byte) (any, error) {
